@@ -174,10 +174,12 @@ func (k *h6World) onDatagram(from, to net.Addr, b []byte) bool {
 				}
 			case stun.MethodCreatePermission:
 				var pa proto.PeerAddress
-				if pa.GetFrom(m) == nil && pa.IP.Equal(h6RefusedPeer.IP) && k.nRefusedTx < 1 {
-					// the application's one write to the refused peer: outside the model's timeline and the loss patterns.
-					// (Only the first such request: a LATER CreatePermission that still leads with this peer is the client
-					// refreshing an entry it should have dropped, and takes its place in the timeline like any other.)
+				nPeers := 0
+				_ = m.ForEach(stun.AttrXORPeerAddress, func(*stun.Message) error { nPeers++; return nil })
+				if pa.GetFrom(m) == nil && pa.IP.Equal(h6RefusedPeer.IP) && nPeers == 1 {
+					// the application's one write to the refused peer (a request naming that peer alone): outside the model's
+					// timeline and the loss patterns.  A request that names it NEXT TO other peers is the client refreshing an
+					// entry it should have dropped, and takes its place in the timeline like any other.
 					k.nRefusedTx++
 					return false
 				}
@@ -533,8 +535,14 @@ func runH6History(t *testing.T, vt *vhT, cfg h6Cfg, tag string, totalMs int, bus
 				break
 			}
 			if cfg.refused && !didRefused && elapsed >= 60000 {
-				k.wr(0, compat)
-				k.wrRefused()
+				// only while the client's nonce is fresh: a stale nonce would be renewed by this extra transaction, which the
+				// model's timeline does not know about
+				if elapsed < 50*60000 {
+					k.wr(0, compat)
+					k.wrRefused()
+				} else {
+					k.vt.Note("refused write skipped: first step went past the nonce horizon (t=%d ms)", elapsed)
+				}
 				didRefused = true
 			}
 			if cfg.peers > 0 {
